@@ -78,6 +78,14 @@ def score_c08(chk: Check, ep: qos.Episode, res: qos.Result) -> None:
             chk.violation("c08.gave_up_early", f"call {i} (max_retries={c['max_retries']}, timeout={c['timeout']}, called at {res.started[i]}) was failed at "
                           f"{res.outcomes[i][0]} after {len(by_call.get(i, []))} of {limit_of(c)} transmissions: {res.outcomes[i][2][:60]}",
                           {"episode": ep.to_json()})
+    # "with the wait doubling after each unanswered attempt": a command is re-transmitted only when a wait has run out, and the
+    # shortest wait is the echo / reply timeout itself (0.5 s)
+    for i, ws in by_call.items():
+        for a, b in zip(ws, ws[1:]):
+            if b - a < 0.5 - 1e-6:
+                chk.violation("c08.retry_too_soon", f"call {i} was transmitted at {a:.6f} and again at {b:.6f}, {b - a:.6f} s later: no wait of the back-off "
+                              "schedule is that short", {"episode": ep.to_json()})
+                break
     if len(order) != len(set(order)):
         chk.violation("c08.interleaved", f"transmission order {order}: a command was resumed after another started", {"episode": ep.to_json()})
     for a, b in zip(order, order[1:]):
@@ -188,6 +196,28 @@ def run_prop(chk: Check, which: str) -> None:
                         chk.evaluations += 1
                         chk.nontrivial.add(json.dumps(ep.to_json(), sort_keys=True))
                         score_c07(chk, ep, res)
+    if which == "C09":
+        # the echo (late, or a duplicate) arrives in the very iteration in which the echo / reply timer runs out - just before, with, or
+        # just behind it - for commands that await a reply and have retries left; the reply follows within the second
+        for cmd, wfr, mode in ((0, True, False), (5, None, None), (8, None, None), (4, True, False), (1, True, None)):
+            for base in (0.5, 1.0):
+                for d in (-1e-9, -5e-10, 0.0, 5e-10, 1e-9, 2e-9):
+                    for rp, hop in ((0.1, False), (0.3, True), (0.8, True), (0.1, True)):
+                        ep = qos.Episode()
+                        ep.mode = mode
+                        ep.hop = hop
+                        ep.calls = [{"t": 0.0, "cmd": cmd, "prio": 0, "max_retries": 3, "timeout": 20.0, "wfr": wfr}]
+                        if base == 0.5:      # the first echo itself is that late
+                            ep.tx[(cmd, 1)] = {"echo": 0.5 + d, "reply": 0.5 + rp, "dup": False, "fail": False}
+                        else:                # echo prompt, no reply: the reply timer (0.02 + 0.5) runs out as a duplicate echo arrives
+                            ep.tx[(cmd, 1)] = {"echo": 0.02, "reply": None, "dup": False, "fail": False}
+                            ep.events = [(0.52 + d, "foreign", 0)]
+                        for nn in range(2, 8):
+                            ep.tx[(cmd, nn)] = {"echo": 0.02, "reply": rp, "dup": nn == 2, "fail": False}
+                        res = qos.run_episode(ep)
+                        chk.evaluations += 1
+                        chk.nontrivial.add(json.dumps(ep.to_json(), sort_keys=True))
+                        score_c09(chk, ep, res)
     if which in ("C07", "C09"):
         # more callers than the send buffer holds (32), behind a command whose echoes are lost: the surplus is refused with a
         # protocol error, everybody is answered, the sender comes to rest
@@ -238,6 +268,25 @@ def run_prop(chk: Check, which: str) -> None:
                 if counts != want or counts[1] > limit_of(ep.calls[1]):
                     chk.violation("c08.exact_budget_queue", f"max_retries {mr_a}/{mr_b}/{mr_c}, the second caller gives up after {b_timeout} s: "
                                   f"transmissions per command {counts}, expected {want}", {"episode": ep.to_json()})
+        # a caller gives up while its command is in flight; the next command's echoes are lost: its re-transmissions keep to the
+        # back-off schedule and its budget is exact (nothing of the abandoned command's timers is left to interfere)
+        for a_timeout in (0.1, 0.3, 0.45, 0.7, 1.2):
+            for mr_b in (1, 2, 3):
+                for b_at in (0.01, 0.2):
+                    ep = qos.Episode()
+                    ep.mode = False
+                    ep.calls = [{"t": 0.0, "cmd": 0, "prio": 0, "max_retries": 3, "timeout": a_timeout, "wfr": None},
+                                {"t": b_at, "cmd": 3, "prio": 0, "max_retries": mr_b, "timeout": 20.0, "wfr": None}]
+                    for cmd in (0, 3):
+                        for nn in range(1, 8):
+                            ep.tx[(cmd, nn)] = {"echo": None, "reply": None, "dup": False, "fail": False}
+                    res = qos.run_episode(ep)
+                    chk.evaluations += 1
+                    score_c08(chk, ep, res)
+                    n_b = sum(1 for i in res.write_calls if i == 1)
+                    if n_b != limit_of(ep.calls[1]):
+                        chk.violation("c08.exact_budget_after_abandoned", f"the first caller gives up after {a_timeout} s with its command in flight; the second "
+                                      f"command (max_retries={mr_b}, all echoes lost) was transmitted {n_b} times, expected {limit_of(ep.calls[1])}", {"episode": ep.to_json()})
         # echoed every time, never answered, the reply being awaited: sent exactly 1 + min(max_retries, 3) times
         for mr in range(0, 6):
             for cmd, wfr, mode in ((0, True, False), (4, True, False), (5, None, None), (8, None, None), (5, True, False), (1, True, None)):
